@@ -166,6 +166,15 @@ static bool should_fail(const char *call, int cid, int *err)
 	return false;
 }
 
+void sim_fail_clear(const char *call)
+{
+	for (int i = 0; i < MAXFAIL; i++) {
+		if (fails[i].armed && strcmp(fails[i].call, call) == 0) {
+			fails[i].armed = false;
+		}
+	}
+}
+
 void sim_fail_next(const char *call, int err, int cid)
 {
 	for (int i = 0; i < MAXFAIL; i++) {
